@@ -2,3 +2,4 @@ pub mod chain;
 pub mod disk;
 pub mod store_model;
 pub mod rec_store;
+pub mod squares;
